@@ -10,11 +10,12 @@ import (
 // ---- typed value trees -----------------------------------------------------------------------------
 
 type vgen struct {
-	t        *rapid.T
-	nodes    int  // remaining node budget
-	bytes    int  // remaining string byte budget
+	t         *rapid.T
+	nodes     int  // remaining node budget
+	bytes     int  // remaining string byte budget
 	canonBool bool // booleans only 0/1
-	bigStr   bool // allow strings beyond the bufiox buffer size
+	bigStr    bool // allow strings beyond the bufiox buffer size
+	big       int  // how many big flat containers (500..2000 elements) may still be generated
 }
 
 func patternBytes(seed byte, n int) []byte {
@@ -126,8 +127,45 @@ func (g *vgen) fieldID() int16 {
 	return rapid.Int16().Draw(g.t, "id")
 }
 
+// bigFlat builds a container with many small elements (counts around 512/1024/2048), outside the node budget.
+func (g *vgen) bigFlat(ty int8) ref.Value {
+	n := rapid.SampledFrom([]int{511, 512, 513, 1023, 1024, 1025, 1500, 2049}).Draw(g.t, "bigN")
+	small := []int8{ref.BOOL, ref.BYTE, ref.I16, ref.I32, ref.I64, ref.DOUBLE, ref.STRING}
+	elem := func(t int8, i int) ref.Value {
+		if t == ref.STRING {
+			return ref.Value{T: t, Str: []byte{byte('a' + i%26), byte(i)}}
+		}
+		return ref.Value{T: t, Bits: uint64(i) & (1<<uint(8*ref.FixedSize(t)) - 1)}
+	}
+	v := ref.Value{T: ty}
+	switch ty {
+	case ref.MAP:
+		v.KT, v.ET = rapid.SampledFrom(small).Draw(g.t, "bigK"), rapid.SampledFrom(small).Draw(g.t, "bigV")
+		if v.KT == ref.BOOL {
+			v.KT = ref.I32
+		}
+		for i := 0; i < n; i++ {
+			v.Elems = append(v.Elems, elem(v.KT, i), elem(v.ET, i+1))
+		}
+	case ref.STRUCT:
+		for i := 0; i < n; i++ {
+			v.Fields = append(v.Fields, ref.Field{ID: int16(i), V: elem(small[i%len(small)], i)})
+		}
+	default:
+		v.ET = rapid.SampledFrom(small).Draw(g.t, "bigE")
+		for i := 0; i < n; i++ {
+			v.Elems = append(v.Elems, elem(v.ET, i))
+		}
+	}
+	return v
+}
+
 func (g *vgen) value(ty int8, depth int) ref.Value {
 	g.nodes--
+	if g.big > 0 && ref.IsContainer(ty) && rapid.IntRange(0, 39).Draw(g.t, "big") == 0 {
+		g.big--
+		return g.bigFlat(ty)
+	}
 	v := ref.Value{T: ty}
 	switch {
 	case ref.FixedSize(ty) > 0:
@@ -158,7 +196,7 @@ func (g *vgen) value(ty int8, depth int) ref.Value {
 
 // genValue draws a typed value tree of type ty (0 = any type).
 func genValue(t *rapid.T, ty int8, depth int, canonBool, bigStr bool) ref.Value {
-	g := &vgen{t: t, nodes: 400, bytes: 150000, canonBool: canonBool, bigStr: bigStr}
+	g := &vgen{t: t, nodes: 400, bytes: 150000, canonBool: canonBool, bigStr: bigStr, big: 1}
 	if ty == 0 {
 		ty = g.typ()
 	}
@@ -168,7 +206,7 @@ func genValue(t *rapid.T, ty int8, depth int, canonBool, bigStr bool) ref.Value 
 // genNest builds a chain of d nested containers with a small leaf; kinds chosen per level.
 func genNest(t *rapid.T, d int) ref.Value {
 	kindMode := rapid.IntRange(0, 4).Draw(t, "nestKind") // 0..3 fixed kind, 4 mixed
-	leafMode := rapid.IntRange(0, 3).Draw(t, "leaf")      // 0 empty container, 1 scalar, 2 string, 3 fixed-width list
+	leafMode := rapid.IntRange(0, 3).Draw(t, "leaf")     // 0 empty container, 1 scalar, 2 string, 3 fixed-width list
 	var build func(level int) ref.Value
 	kinds := []int8{ref.STRUCT, ref.MAP, ref.SET, ref.LIST}
 	pick := func() int8 {
@@ -240,7 +278,9 @@ func genNest(t *rapid.T, d int) ref.Value {
 // ---- malformation operators --------------------------------------------------------------------------
 
 var structuralBytes = []byte{0x00, 0x01, 0x02, 0x03, 0x04, 0x06, 0x08, 0x0a, 0x0b, 0x0c, 0x0d, 0x0e, 0x0f, 0x10, 0x7f, 0x80, 0x8b, 0x8c, 0xff}
-var hostileSizes = []uint32{0, 1, 2, 0x7fffffff, 0x80000000, 0xffffffff, 0xff000000, 0x00010000, 0x7ffffff0}
+var hostileSizes = []uint32{0, 1, 2, 0x7fffffff, 0x80000000, 0xffffffff, 0xff000000, 0x00010000, 0x7ffffff0,
+	// counts whose product with an element width of 1..16 reaches 2^31 or wraps at 2^32
+	0x08000000, 0x10000000, 0x20000000, 0x40000000, 0x10000001, 0x20000001, 0x40000001, 0x0fffffff, 0x15555556, 0x55555556, 0x33333334}
 
 // mutate applies one malformation operator to enc (marks describe its structural bytes).
 // It returns the mutated bytes and the operator name.
